@@ -5,6 +5,12 @@ ROOT = os.path.dirname(os.path.dirname(os.path.abspath(__file__)))
 props = [json.loads(l) for l in open(os.path.join(ROOT, "properties.jsonl"))]
 
 CHECKS = {
+ "C02": dict(
+   category="proof",
+   text="Coq (67 theorems, all parameters): BINV's recurrence equals the binomial pmf and the coded loop returns x exactly on the x-th cell of the cdf; the p>0.5 flip; the geometric power-of-two block decomposition and the leading-zero counts of StandardGeometric; both hypergeometric symmetries, the bijection of the coded affine reflection (all four swap combinations, integer tie rule) onto the support, HIN recurrence and start values; Zeta proposal mass x acceptance = C x^-s with acceptance <= 1; Zipf hat mass, inverse and acceptance mass; Knuth's product form. All seven samplers (incl. BTPE, H2PE, Ahrens-Dieter PD) are modelled as decision trees and tied to the code pathwise: same integer and same number of RNG words on identical parameter bits and words, on exhaustive small parameter sets and grids on both sides of every method switch.",
+   note="Not proved: that the BTPE/H2PE/PD hats dominate and their Stirling squeezes (paper lemmas); those samplers are tied pathwise only. Probability bridge B1-B4 not formalised. Known finding F10 (Zeta precision loss for huge proposals).",
+   technique="Coq proof (pmf recurrences, reflection bijection, rejection identities) + pathwise model/implementation correspondence",
+   design="DESIGN.md §6 C02"),
  "C04": dict(
    category="proof",
    text="Coq (Flocq IEEE binary32/binary64): for each of 28 public constructor entry points a theorem over ALL values of the argument types: the model of the validation code agrees with the documented domain (MustErr with an allowed variant / MustOk / Unspecified regions listed), never panics, nested unwrap()/unreachable!() unreachable; LogNormal::from_mean_cv and Hypergeometric::new are proved outside explicit decidable known-defect classes and refuted inside them. The hand models are tied to the code by regenerated fingerprints and by correspondence on the special-value lattice cross product; the documented spec is also evaluated on every tuple directly against the real constructor (independent of the model).",
